@@ -161,6 +161,9 @@ func (obj *ShapeHmm) ImportConfig(config ConfigDistribution, t ScalarType) error
       distributions[i] = tmp
     }
   }
+  if len(distributions) != obj.NEDists() {
+    return fmt.Errorf("invalid config file: number of distributions does not match number of emission distributions")
+  }
   obj.Edist = distributions
 
   return nil
